@@ -10,7 +10,7 @@ CONSTANTS
   Hints = {"-"}
   TMenu = {"ghosts", "where_clause", "child_parents"}
   MMenu = {"map", "ghost_nd", "child"}
-  FixedTraits = <<>>
+  FixedTraits <- NoTraits
   SpellAll = FALSE
   TCps = {"-", "A", "Z"}
   MCps = {"-", "A", "Z"}
